@@ -140,6 +140,8 @@ type Exec struct {
 	nFrame      int
 	frameOff    bool
 	unroll      bool
+	assumeFns   map[string]bool
+	summariesUsed []string
 	trustedUsed []string
 }
 
@@ -616,6 +618,11 @@ func (x *Exec) callFunc(st *State, fn *ssa.Function, args []*Term, bindings []*T
 	if isRecSpec(fn) && bindings == nil {
 		return x.recSpecCall(st, fn, args)
 	}
+	if x.assumeFns != nil && bindings == nil {
+		if fs := x.summaryFor(fn); fs != nil {
+			return x.summaryCall(st, fn, args, fs)
+		}
+	}
 	x.cover[originOf(fn)] = true
 	if traceCalls {
 		fmt.Fprintf(os.Stderr, "%*scall %s\n", len(x.stack)*2, "", fn.String())
@@ -711,6 +718,125 @@ func (x *Exec) recSpecCall(st *State, fn *ssa.Function, args []*Term) []Outcome 
 		x.assumeFact(st, c.Implies(c.And(facts, def), c.Eq(app, v)))
 	}
 	return []Outcome{{st: st, kind: ORet, val: app}}
+}
+
+// summaryFor: the harness asked (option assume=F,G) to use the contract of
+// this callee instead of its body.
+func (x *Exec) summaryFor(fn *ssa.Function) *FuncSummary {
+	o := originOf(fn)
+	if o.Pkg == nil || o.Parent() != nil {
+		return nil
+	}
+	name := o.Name()
+	pkgName := o.Pkg.Pkg.Name()
+	if !x.assumeFns[name] && !x.assumeFns[pkgName+"."+name] {
+		return nil
+	}
+	key := o.Pkg.Pkg.Path() + "." + name
+	if recv := o.Signature.Recv(); recv != nil {
+		key = o.Pkg.Pkg.Path() + "." + recvNamed(recv.Type()) + "." + name
+	}
+	return x.prog.Summaries[key]
+}
+
+func recvNamed(t types.Type) string {
+	if p, ok := t.(*types.Pointer); ok {
+		t = p.Elem()
+	}
+	if n, ok := types.Unalias(t).(*types.Named); ok {
+		return n.Obj().Name()
+	}
+	return "?"
+}
+
+func pickInstance(cands []*ssa.Function, targs []types.Type) *ssa.Function {
+	for _, c := range cands {
+		ta := c.TypeArgs()
+		if len(ta) != len(targs) {
+			continue
+		}
+		ok := true
+		for i := range ta {
+			if !types.Identical(ta[i], targs[i]) {
+				ok = false
+				break
+			}
+		}
+		if ok {
+			return c
+		}
+	}
+	return nil
+}
+
+// summaryCall: modular call.  The precondition becomes an obligation, the
+// result is an uninterpreted function of the arguments (the callee is pure)
+// constrained by the callee's postconditions.
+func (x *Exec) summaryCall(st *State, fn *ssa.Function, args []*Term, fs *FuncSummary) []Outcome {
+	c := x.c
+	targs := fn.TypeArgs()
+	sig := fn.Signature
+	var rs *Sort
+	switch sig.Results().Len() {
+	case 1:
+		rs = c.SortOf(sig.Results().At(0).Type())
+	default:
+		return abortOut(st, "summary of %s: only single-result functions", fn)
+	}
+	evalPred := func(p *ssa.Function, as []*Term) *Term {
+		s2 := st.clone()
+		s2.trace = nil
+		saved := x.assumeFns
+		x.assumeFns = nil // the contract itself is evaluated against real bodies of everything else
+		_ = saved
+		x.assumeFns = saved
+		outs := x.callFunc(s2, p, as, nil)
+		mark := len(x.mergedFacts)
+		v, def, facts := x.mergeOuts(st, outs, c.Bool)
+		_ = mark
+		if v == nil {
+			return nil
+		}
+		x.assumeFact(st, facts)
+		return c.And(def, v)
+	}
+	if req := pickInstance(fs.Req, targs); req != nil {
+		g := evalPred(req, args)
+		if g == nil {
+			return abortOut(st, "summary of %s: requires outside subset", fn)
+		}
+		x.nFrame++
+		x.side = append(x.side, SideOblig{Name: fmt.Sprintf("precondition of %s#%d", originOf(fn).Name(), x.nFrame), PC: x.pcOf(st), Goal: g})
+	} else {
+		return abortOut(st, "no contract instance of %s for type arguments %v (add an `inst` line)", originOf(fn), targs)
+	}
+	res := c.App("sum_"+shortName(fn.String()), rs, args...)
+	x.assumeFact(st, x.resultInv(sig.Results().At(0).Type(), res))
+	if rs == c.Iface {
+		x.assumeFact(st, c.Not(c.Eq(res, c.NilIface())))
+	}
+	for _, cands := range fs.Preds {
+		p := pickInstance(cands, targs)
+		if p == nil {
+			return abortOut(st, "no contract instance of %s for type arguments %v", originOf(fn), targs)
+		}
+		v := evalPred(p, append(append([]*Term(nil), args...), res))
+		if v == nil {
+			return abortOut(st, "summary of %s: ensures outside subset", fn)
+		}
+		x.assumeFact(st, v)
+	}
+	x.noteSummary(originOf(fn).String())
+	return []Outcome{{st: st, kind: ORet, val: res}}
+}
+
+func (x *Exec) noteSummary(s string) {
+	for _, t := range x.summariesUsed {
+		if t == s {
+			return
+		}
+	}
+	x.summariesUsed = append(x.summariesUsed, s)
 }
 
 var traceCalls = os.Getenv("GOVC_TRACE") != ""
